@@ -81,3 +81,437 @@ def walk_config(w, repo):
         if out.strip():
             return True, "find t -mindepth 3 -maxdepth 1 printed %r (expected nothing)" % out.decode()[:80]
         return False, "no output for an empty depth range"
+
+
+# ------------------------------------------------------------------------------------------ helpers for scenario batteries
+def _find(repo, args, cwd):
+    rc, out, err = run([find_bin(repo)] + args, cwd=cwd)
+    return rc, out.decode(errors="replace"), err.decode(errors="replace")
+
+
+def _battery(results):
+    """results: list of (label, ok: bool). -> (True, first deviation) or (None, why)"""
+    bad = [l for l, ok in results if not ok]
+    if bad:
+        return True, "native scenario deviates: " + "; ".join(bad[:3])
+    return None, "the witness is a state/verdict script with no exact CLI counterpart; %d neighbouring CLI scenarios behave correctly" % len(results)
+
+
+# ------------------------------------------------------------------------------------------ C01
+def quit_no_action(w, repo):
+    if not build(repo):
+        return None, "build failed"
+    with Sandbox() as d:
+        os.makedirs(os.path.join(d, "t"))
+        for n in ("a.c", "b.c", "zstop"):
+            open(os.path.join(d, "t", n), "w").close()
+        res = []
+        rc, out, _ = _find(repo, ["t", "-sorted", "-true", "-o", "-quit"], d)
+        res.append(("find t -true -o -quit printed %r" % out, out.split() == ["t", "t/a.c", "t/b.c", "t/zstop"]))
+        rc, out, _ = _find(repo, ["t", "-sorted", "(", "-name", "zstop", "-quit", ")", "-o", "-name", "*.c"], d)
+        res.append(("( -name zstop -quit ) -o -name *.c printed %r" % out, out.split() == ["t/a.c", "t/b.c"]))
+        rc, out, _ = _find(repo, ["t", "-sorted", "-name", "a.c", "-prune"], d)
+        res.append(("-name a.c -prune printed %r" % out, out.split() == ["t/a.c"]))
+        rc, out, _ = _find(repo, ["t", "-sorted", "-name", "a.c", "-print", "-o", "-false"], d)
+        res.append(("explicit -print printed %r" % out, out.split() == ["t/a.c"]))
+        return _battery(res)
+
+
+def builder_ops(w, repo):
+    """malformed operator sequences must be rejected before any action"""
+    if not build(repo):
+        return None, "build failed"
+    with Sandbox() as d:
+        os.makedirs(os.path.join(d, "t"))
+        open(os.path.join(d, "t", "f"), "w").close()
+        res = []
+        for expr in (["-false", "-o", "-a", "-print"], ["-o", "-print"], ["-true", ",", ",", "-print"], ["-a", "-print"],
+                     ["-true", "-o", ",", "-print"], ["(", "-true", "-o", "-a", "-false", ")", "-print"]):
+            rc, out, err = _find(repo, ["t"] + expr, d)
+            res.append(("find t %s: rc=%d out=%r" % (" ".join(expr), rc, out), rc != 0 and out == ""))
+        for expr, want in ((["-name", "f", "-o", "-name", "t", "-print"], ["t"]), (["-false", "-o", "-true", "-name", "f"], ["t/f"]),
+                           (["-false", ",", "-name", "f"], ["t/f"])):
+            rc, out, err = _find(repo, ["t", "-sorted"] + expr, d)
+            res.append(("find t %s printed %r" % (" ".join(expr), out), out.split() == want))
+        return _battery(res)
+
+
+# ------------------------------------------------------------------------------------------ C18 / C02
+def do_find_loop(w, repo):
+    if not build(repo):
+        return None, "build failed"
+    with Sandbox() as d:
+        os.makedirs(os.path.join(d, "good"))
+        os.makedirs(os.path.join(d, "other"))
+        res = []
+        for roots, want_fail in ((["missing", "good"], True), (["good", "missing", "other"], True), (["good", "other"], False), (["good", "missing"], True)):
+            rc, out, err = _find(repo, roots, d)
+            seen = [r for r in roots if r in out.split()]
+            res.append(("find %s: rc=%d seen=%s" % (" ".join(roots), rc, seen), (rc != 0) == want_fail and seen == [r for r in roots if r != "missing"]))
+        rc, out, err = _find(repo, ["good", "other", "-print", "-quit"], d)
+        res.append(("-quit stops later starting points: %r" % out, out.split() == ["good"]))
+        return _battery(res)
+
+
+def parse_args_operands(w, repo):
+    if not build(repo):
+        return None, "build failed"
+    with Sandbox() as d:
+        os.makedirs(os.path.join(d, "a"))
+        res = []
+        rc, out, err = _find(repo, ["./a/", "a"], d)
+        res.append(("spelling kept: %r" % out, out.split() == ["./a/", "a"]))
+        rc, out, err = _find(repo, ["-H", "--", "a"], d)
+        res.append(("-H -- a: %r" % out, out.split() == ["a"]))
+        rc, out, err = _find(repo, [], os.path.join(d, "a"))
+        res.append(("default '.': %r" % out, out.split() == ["."]))
+        return _battery(res)
+
+
+# ------------------------------------------------------------------------------------------ C03
+def prune_dirs(w, repo):
+    if not build(repo):
+        return None, "build failed"
+    with Sandbox() as d:
+        for p in ("t/b/sub", "t/c", "t/real"):
+            os.makedirs(os.path.join(d, p))
+        for p in ("t/b/f1", "t/b/sub/f2", "t/c/f3", "t/d"):
+            open(os.path.join(d, p), "w").close()
+        os.symlink("real", os.path.join(d, "t", "a_link"))
+        res = []
+        rc, out, _ = _find(repo, ["t", "-sorted", "-name", "a_link", "-prune", "-o", "-print"], d)
+        want = ["t", "t/b", "t/b/f1", "t/b/sub", "t/b/sub/f2", "t/c", "t/c/f3", "t/d", "t/real"]
+        res.append(("-prune on a link to a directory (-P): %r" % out, out.split() == want))
+        rc, out, _ = _find(repo, ["t", "-sorted", "-name", "b", "-prune", "-o", "-print"], d)
+        res.append(("-prune b: %r" % out, out.split() == ["t", "t/a_link", "t/c", "t/c/f3", "t/d", "t/real"]))
+        rc, out, _ = _find(repo, ["t", "-sorted", "-depth", "-name", "b", "-prune", "-o", "-print"], d)
+        res.append(("-depth -prune changes nothing: %r" % out, "t/c/f3" in out.split() and "t/b/f1" in out.split() and "t/d" in out.split()))
+        return _battery(res)
+
+
+walk_loop = prune_dirs
+
+
+# ------------------------------------------------------------------------------------------ C04 / C19
+_REC = r'''#!/bin/sh
+echo "$#:$*" >> "$REC_LOG"
+n=$(wc -l < "$REC_LOG")
+code=$(echo "$REC_CODES" | cut -d, -f"$n")
+[ -z "$code" ] && code=0
+if [ "$code" = "K" ]; then kill -9 $$; fi
+exit "$code"
+'''
+
+
+def _xargs(repo, d, args, inp, codes=""):
+    rec = os.path.join(d, "rec.sh")
+    with open(rec, "w") as f:
+        f.write(_REC)
+    os.chmod(rec, 0o755)
+    log = os.path.join(d, "rec.log")
+    if os.path.exists(log):
+        os.remove(log)
+    open(log, "w").close()
+    env = dict(os.environ, REC_LOG=log, REC_CODES=codes)
+    rc, out, err = run([xargs_bin(repo)] + args + [rec], cwd=d, inp=inp, env=env)
+    calls = [l.split(":", 1)[1].split() for l in open(log).read().splitlines()]
+    return rc, calls, err.decode(errors="replace")
+
+
+def process_input(w, repo):
+    if not build(repo):
+        return None, "build failed"
+    with Sandbox() as d:
+        res = []
+        for codes, want_rc, want_calls in (("1,0,0", 123, 3), ("0,3,0,0", 123, 4), ("0,255,0", 124, 2), ("0,0,0", 0, 3), ("0,K,0", 125, 2), ("1,0", 123, 2)):
+            n = len(codes.split(","))
+            rc, calls, err = _xargs(repo, d, ["-n1"], b"".join(b"a%d\n" % i for i in range(n)), codes)
+            res.append(("outcomes %s: rc=%d calls=%d" % (codes, rc, len(calls)), rc == want_rc and len(calls) == want_calls))
+        rc, calls, err = _xargs(repo, d, ["-n2"], b"a b c d e\n")
+        res.append(("-n2 batches %r" % calls, calls == [["a", "b"], ["c", "d"], ["e"]]))
+        rc, calls, err = _xargs(repo, d, ["-L1"], b"a b\nc \nd\n")
+        res.append(("-L1 batches %r" % calls, calls == [["a", "b"], ["c", "d"]]))
+        rc, calls, err = _xargs(repo, d, [], b"")
+        res.append(("empty input runs once: %r" % calls, calls == [[]] and rc == 0))
+        rc, calls, err = _xargs(repo, d, ["-r"], b"")
+        res.append(("-r empty input: %r" % calls, calls == [] and rc == 0))
+        return _battery(res)
+
+
+def limiter_chars(w, repo):
+    if not build(repo):
+        return None, "build failed"
+    with Sandbox() as d:
+        res = []
+        rec_len = len(os.path.join(d, "rec.sh")) + 1
+        # with an explicit command, the command itself counts against -s
+        rc, calls, err = _xargs(repo, d, ["-s", str(rec_len + 6)], b"ab cd efg\n")
+        res.append(("-s %d (cmd+6): %r rc=%d" % (rec_len + 6, calls, rc), calls == [["ab", "cd"], ["efg"]]))
+        rc, calls, err = _xargs(repo, d, ["-s", str(rec_len + 8)], b"abcdefgh\n")
+        res.append(("argument that does not fit: rc=%d calls=%r" % (rc, calls), rc == 1 and calls == []))
+        rc, calls, err = _xargs(repo, d, ["-s", str(rec_len + 9)], b"abcdefgh\n")
+        res.append(("argument that fits exactly: rc=%d calls=%r" % (rc, calls), rc == 0 and calls == [["abcdefgh"]]))
+        return _battery(res)
+
+
+initial_args = limiter_chars
+
+
+def exit_code_map(w, repo):
+    if not build(repo):
+        return None, "build failed"
+    with Sandbox() as d:
+        res = []
+        rc, _, _ = run([xargs_bin(repo), "/nonexistent/cmd"], cwd=d, inp=b"a\n")
+        res.append(("missing command: rc=%d" % rc, rc == 127))
+        open(os.path.join(d, "noexec"), "w").write("x")
+        rc, _, _ = run([xargs_bin(repo), "./noexec"], cwd=d, inp=b"a\n")
+        res.append(("not executable: rc=%d" % rc, rc == 126))
+        rc, _, _ = run([xargs_bin(repo), "-n", "0", "true"], cwd=d, inp=b"a\n")
+        res.append(("bad option value: rc=%d" % rc, rc == 1))
+        rc, _, _ = run([xargs_bin(repo), "true"], cwd=d, inp=b"'a\n")
+        res.append(("unterminated quote: rc=%d" % rc, rc == 1))
+        return _battery(res)
+
+
+classify_child = process_input
+
+
+# ------------------------------------------------------------------------------------------ C05 (exact replay)
+def _ref_tokens(data):
+    toks, cur, quote, slash, sawq, err = [], bytearray(), 0, False, False, False
+    amb = False
+    for c in data:
+        if quote:
+            if c == quote:
+                quote = 0
+            else:
+                cur.append(c)
+        elif slash:
+            cur.append(c); slash = False
+        elif c in (0x27, 0x22):
+            quote = c; sawq = True
+        elif c == 0x5C:
+            slash = True
+        elif c in (0x20, 0x0A, 0x09):
+            if cur:
+                toks.append(bytes(cur)); cur = bytearray(); sawq = False
+            elif sawq:
+                amb = True
+        else:
+            cur.append(c)
+    if quote:
+        err = True
+    elif cur:
+        toks.append(bytes(cur))
+    elif sawq:
+        amb = True
+    return toks, err, amb
+
+
+def ws_reader(w, repo):
+    """exact: feed the witness bytes to the real xargs and compare argv with the reference tokenizer"""
+    if not build(repo):
+        return None, "build failed"
+    vals = [v["le_uint"] for v in w.get("concrete_vals", [])]
+    m = __import__("re").search(r"c05_ws_len(\d)", w.get("harness_name", ""))
+    n = int(m.group(1)) if m else 2
+    data = bytes(v & 0xFF for v in vals[:n])
+    toks, err, amb = _ref_tokens(data)
+    if amb:
+        return None, "witness contains '' as a whole token (outside the claim)"
+    with Sandbox() as d:
+        out_path = os.path.join(d, "argv.bin")
+        script = os.path.join(d, "dump.sh")
+        open(script, "w").write('#!/bin/sh\nfor a in "$@"; do printf "%s\\0" "$a" >> "' + out_path + '"; done\n')
+        os.chmod(script, 0o755)
+        rc, out, e = run([xargs_bin(repo), script], cwd=d, inp=data)
+        got = open(out_path, "rb").read().split(b"\0")[:-1] if os.path.exists(out_path) else []
+        # non-UTF-8 bytes are replaced by U+FFFD by the reader's lossy conversion: compare modulo that
+        want = [t.decode("utf-8", errors="replace").encode() for t in toks]
+        if err:
+            ok = rc == 1
+        else:
+            ok = got == want and rc == 0
+        if not ok:
+            return True, "input %r: xargs delivered %r (rc=%d), reference %r%s" % (data, got, rc, want, " + error" if err else "")
+        return False, "input %r behaves like the reference natively" % data
+
+
+# ------------------------------------------------------------------------------------------ C10
+def delete_decision(w, repo):
+    if not build(repo):
+        return None, "build failed"
+    res = []
+    for mode in ("-P", "-H", "-L"):
+        with Sandbox() as d:
+            os.makedirs(os.path.join(d, "target_dir"))
+            open(os.path.join(d, "target_file"), "w").write("x")
+            os.symlink("target_dir", os.path.join(d, "ld"))
+            os.symlink("target_file", os.path.join(d, "lf"))
+            os.symlink("nowhere", os.path.join(d, "dang"))
+            for name in ("ld", "lf", "dang"):
+                rc, out, err = _find(repo, [mode, name, "-maxdepth", "0", "-delete"], d)
+                gone = not os.path.lexists(os.path.join(d, name))
+                kept = os.path.isdir(os.path.join(d, "target_dir")) and os.path.exists(os.path.join(d, "target_file"))
+                res.append(("find %s %s -delete: rc=%d link_removed=%s targets_kept=%s" % (mode, name, rc, gone, kept), rc == 0 and gone and kept))
+    with Sandbox() as d:
+        os.makedirs(os.path.join(d, "t/full/x"))
+        rc, out, err = _find(repo, ["t/full", "-maxdepth", "0", "-delete"], d)
+        res.append(("non-empty directory: rc=%d" % rc, rc != 0 and os.path.isdir(os.path.join(d, "t/full/x"))))
+    return _battery(res)
+
+
+# ------------------------------------------------------------------------------------------ C13 / C14 / C15 / C16 (exact where the witness is a stat record)
+def perm_bits(w, repo):
+    v = decode(w)
+    if not build(repo) or "meta" not in v:
+        return None, "build failed or no witness"
+    mode = v["meta"]["mode"] & 0o7777
+    pat = v.get("pat", 0) & 0o7777
+    form = {0: "", 1: "-", 2: "/"}[v.get("which", 0) % 3]
+    with Sandbox() as d:
+        p = os.path.join(d, "f")
+        open(p, "w").close()
+        os.chmod(p, mode)
+        rc, out, err = _find(repo, ["f", "-perm", "%s%o" % (form, pat)], d)
+        want = {"": mode == pat, "-": mode & pat == pat, "/": pat == 0 or mode & pat != 0}[form]
+        os.chmod(p, 0o600)
+        if (out.strip() == "f") != want:
+            return True, "mode %o, -perm %s%o: selected=%s, expected %s" % (mode, form, pat, out.strip() == "f", want)
+        return False, "mode %o, -perm %s%o selects as expected natively" % (mode, form, pat)
+
+
+def size_round(w, repo):
+    v = decode(w)
+    if not build(repo):
+        return None, "build failed"
+    unit = "cwbkMG"[v.get("unit", 0) % 6]
+    shift = {"c": 0, "w": 1, "b": 9, "k": 10, "M": 20, "G": 30}[unit]
+    size = v.get("bytes", 0)
+    if size > (1 << 33):
+        size = (size % (1 << 32)) + (1 << shift)  # keep the relation to the unit boundary, stay creatable as a sparse file
+    with Sandbox() as d:
+        p = os.path.join(d, "f")
+        with open(p, "wb") as f:
+            f.truncate(size)
+        want = -(-size // (1 << shift))
+        rc, out, err = _find(repo, ["f", "-size", "%d%s" % (want, unit)], d)
+        if out.strip() != "f":
+            return True, "size %d: -size %d%s does not select it" % (size, want, unit)
+        res = []
+        for sz in (2048, 2049, 1, 0, 1024):
+            with open(p, "wb") as f:
+                f.truncate(sz)
+            k = -(-sz // 1024)
+            rc, out, err = _find(repo, ["f", "-size", "%dk" % k], d)
+            res.append(("size %d -size %dk" % (sz, k), out.strip() == "f"))
+        return _battery(res)
+
+
+def _touch(path, a, m):
+    os.utime(path, ns=(a, m))
+
+
+def newer_xy(w, repo):
+    if not build(repo):
+        return None, "build failed"
+    res = []
+    with Sandbox() as d:
+        ref, e = os.path.join(d, "ref"), os.path.join(d, "e")
+        open(ref, "w").close(); open(e, "w").close()
+        S = 1_600_000_000 * 10**9
+        _touch(ref, S, S + 4 * 10**9)            # ref: atime = S, mtime = S+4s
+        _touch(e, S - 10**9, S + 2 * 10**9)      # e:   atime = S-1s, mtime = S+2s
+        for opt, want in (("-newerma", True), ("-newermm", False), ("-neweram", False), ("-neweraa", False), ("-newer", False)):
+            rc, out, err = _find(repo, ["e", opt, "ref"], d)
+            res.append(("%s: selected=%s" % (opt, out.strip() == "e"), (out.strip() == "e") == want))
+        _touch(e, S, S + 4 * 10**9 + 1)          # 1 ns newer
+        rc, out, err = _find(repo, ["e", "-newer", "ref"], d)
+        res.append(("-newer at 1 ns: %r" % out, out.strip() == "e"))
+        _touch(e, S, S + 4 * 10**9)
+        rc, out, err = _find(repo, ["e", "-newer", "ref"], d)
+        res.append(("-newer equal: %r" % out, out.strip() == ""))
+        # ctime sub-second part: make ctime and mtime differ in their nanoseconds
+        time.sleep(0.01)
+        _touch(e, S, S + 123)
+        st = os.stat(e)
+        r2 = os.path.join(d, "r2"); open(r2, "w").close()
+        _touch(r2, S, st.st_ctime_ns - 1)
+        rc, out, err = _find(repo, ["e", "-newercm", "r2"], d)
+        res.append(("-newercm with ctime 1 ns later than ref mtime: %r" % out, out.strip() == "e"))
+        _touch(r2, S, st.st_ctime_ns + 1)
+        rc, out, err = _find(repo, ["e", "-newercm", "r2"], d)
+        res.append(("-newercm with ctime 1 ns earlier: %r" % out, out.strip() == ""))
+    return _battery(res)
+
+
+age_days = newer_xy
+
+
+def printf_m(w, repo):
+    v = decode(w)
+    if not build(repo):
+        return None, "build failed"
+    mode = (v.get("meta", {}).get("mode", 0o4755)) & 0o7777
+    with Sandbox() as d:
+        p = os.path.join(d, "f"); open(p, "w").close(); os.chmod(p, mode)
+        rc, out, err = _find(repo, ["f", "-printf", "%m"], d)
+        os.chmod(p, 0o600)
+        if int(out or "0", 8) != mode:
+            return True, "mode %o printed as %r" % (mode, out)
+        return False, "mode %o printed as %s" % (mode, out)
+
+
+def printf_cli(w, repo):
+    if not build(repo):
+        return None, "build failed"
+    with Sandbox() as d:
+        open(os.path.join(d, "f"), "w").close()
+        res = []
+        for fmt, want in (("%é|", b"\xc3\xa9|"), ("\\101", b"A"), ("%f\\012", b"f\n"), ("x\\0y", b"x\0y"), ("\\tq", b"\tq")):
+            rc, out, err = run([find_bin(repo), "f", "-printf", fmt], cwd=d)
+            res.append(("-printf %r: rc=%d out=%r" % (fmt, rc, out), rc == 0 and out == want))
+        for fmt in ("\\é", "\\12é", "\\q"):
+            rc, out, err = run([find_bin(repo), "f", "-printf", fmt], cwd=d)
+            res.append(("-printf %r must be diagnosed: rc=%d" % (fmt, rc), rc == 1))
+        return _battery(res)
+
+
+def printf_y(w, repo):
+    if not build(repo):
+        return None, "build failed"
+    with Sandbox() as d:
+        open(os.path.join(d, "f"), "w").close()
+        os.symlink("f", os.path.join(d, "lf")); os.symlink("nowhere", os.path.join(d, "dang"))
+        res = []
+        for mode, name, want in (("-P", "lf", "l f"), ("-L", "lf", "f"), ("-L", "dang", "l N"), ("-P", "dang", "l N"), ("-H", "lf", "f")):
+            rc, out, err = _find(repo, [mode, name, "-printf", "%y %Y"], d)
+            ok = out.split()[0] == want.split()[0] and (len(want.split()) == 1 or out.split()[1] == want.split()[1])
+            res.append(("find %s %s -printf '%%y %%Y' = %r" % (mode, name, out), ok))
+        return _battery(res)
+
+
+def lname_follow(w, repo):
+    if not build(repo):
+        return None, "build failed"
+    with Sandbox() as d:
+        open(os.path.join(d, "f"), "w").close()
+        os.symlink("f", os.path.join(d, "lf")); os.symlink("nowhere", os.path.join(d, "dang"))
+        res = []
+        for mode, want in (("-P", ["./dang", "./lf"]), ("-L", ["./dang"])):
+            rc, out, err = _find(repo, [mode, ".", "-lname", "*"], d)
+            res.append(("find %s . -lname '*' = %r" % (mode, sorted(out.split())), sorted(out.split()) == want))
+        rc, out, err = _find(repo, ["-H", "lf", "-lname", "*"], d)
+        res.append(("find -H lf -lname '*' = %r" % out, out.strip() == ""))
+        return _battery(res)
+
+
+def system_budget(w, repo):
+    if not build(repo):
+        return None, "build failed"
+    n = 300000
+    rc, out, err = run([xargs_bin(repo), "true"], inp=b"x\n" * n, timeout=300)
+    if rc == 126:
+        return True, "%d one-byte arguments: xargs exit %d (%s)" % (n, rc, err.decode(errors='replace').strip()[:80])
+    return False, "300000 one-byte arguments accepted (rc=%d)" % rc
